@@ -2,6 +2,7 @@ package sim
 
 import (
 	"context"
+	"sort"
 	"time"
 
 	corev1 "k8s.io/api/core/v1"
@@ -49,8 +50,19 @@ func (v *viewIndexer) Get(obj interface{}) (interface{}, bool, error) {
 	}
 	return o, ok, err
 }
+// sortObjs puts objects handed out by the cache into key order: the indexer returns
+// them in Go map order, which would make runs irreproducible (any order is legal).
+func sortObjs(l []interface{}) {
+	sort.SliceStable(l, func(i, j int) bool {
+		a, _ := cache.MetaNamespaceKeyFunc(l[i])
+		b, _ := cache.MetaNamespaceKeyFunc(l[j])
+		return a < b
+	})
+}
+
 func (v *viewIndexer) List() []interface{} {
 	l := v.Indexer.List()
+	sortObjs(l)
 	for _, o := range l {
 		v.note(o)
 	}
@@ -58,6 +70,7 @@ func (v *viewIndexer) List() []interface{} {
 }
 func (v *viewIndexer) Index(name string, obj interface{}) ([]interface{}, error) {
 	l, err := v.Indexer.Index(name, obj)
+	sortObjs(l)
 	for _, o := range l {
 		v.note(o)
 	}
@@ -65,6 +78,7 @@ func (v *viewIndexer) Index(name string, obj interface{}) ([]interface{}, error)
 }
 func (v *viewIndexer) ByIndex(name, value string) ([]interface{}, error) {
 	l, err := v.Indexer.ByIndex(name, value)
+	sortObjs(l)
 	for _, o := range l {
 		v.note(o)
 	}
@@ -105,7 +119,7 @@ func (d *DetInformer) AddEventHandler(h cache.ResourceEventHandler) {
 	l := &listener{id: len(d.listeners), h: h}
 	d.listeners = append(d.listeners, l)
 	// a late listener gets synthetic Adds for what is already in the cache
-	for _, o := range d.raw.List() {
+	for _, o := range d.sortedList() {
 		l.pending = append(l.pending, notification{typ: Added, obj: o})
 	}
 	if !d.Split {
@@ -237,7 +251,7 @@ func (d *DetInformer) DeliverOne(api *API) bool {
 
 // Resync re-delivers every cached object as an update (old == new), like the periodic resync of client-go.
 func (d *DetInformer) Resync() {
-	for _, o := range d.raw.List() {
+	for _, o := range d.sortedList() {
 		for _, l := range d.listeners {
 			l.pending = append(l.pending, notification{typ: Modified, old: o, obj: o})
 			if !d.Split {
@@ -305,4 +319,17 @@ func (i *Informers) SetOnRead(f func(kind Kind, key string, obj interface{}, fou
 	for _, d := range i.All() {
 		d.idx.onRead = f
 	}
+}
+
+// sortedList lists the cached objects in key order (the indexer's own order is a Go map order).
+func (d *DetInformer) sortedList() []interface{} {
+	keys := d.raw.ListKeys()
+	sort.Strings(keys)
+	out := make([]interface{}, 0, len(keys))
+	for _, k := range keys {
+		if o, ok, _ := d.raw.GetByKey(k); ok {
+			out = append(out, o)
+		}
+	}
+	return out
 }
